@@ -348,9 +348,9 @@ Proof.
     assert (Ho' : get_oldest t' = o + 1).
     { unfold get_oldest at 1, t'. rewrite tget_tupdate_same by exact S1. apply of_be_be_min. }
     assert (Hn' : get_newest t' = get_newest t).
-    { unfold get_newest. apply Hframe; [apply newest_ne_oldest|apply newest_ne_index]. }
+    { unfold get_newest. rewrite Hframe; [reflexivity|apply newest_ne_oldest|apply newest_ne_index]. }
     assert (Hco : cell t' o = []).
-    { unfold cell, t'. rewrite tget_tupdate_other by apply index_key_ne_ctl.
+    { unfold cell, t'. rewrite tget_tupdate_other; [|exact S1|apply index_key_ne_ctl].
       apply tget_del_same. exact St. }
     assert (Hcell : forall i, i <> o -> cell t' i = cell t i).
     { intros i Hi. unfold cell. apply Hframe; [apply index_key_ne_ctl|].
@@ -468,8 +468,8 @@ Proof.
   - rewrite push_etx_as_list by exact I.
     assert (W1 : wf_etxs [e]) by (constructor; [exact W|constructor]).
     destruct (push_etxs_spec t [e] I W1) as (I' & _ & _ & A & _). split; [exact I'|]. rewrite A. reflexivity.
-  - pose proof (pop_etx_spec t I) as P. destruct (abs t) as [|e rest].
-    + rewrite P. cbn. split; [exact I|]. reflexivity.
+  - pose proof (pop_etx_spec t I) as P. destruct (abs t) as [|e rest] eqn:EA.
+    + rewrite P. cbn. split; [exact I|]. rewrite EA. reflexivity.
     + destruct P as (t' & -> & I' & A & _). cbn. split; [exact I'|]. rewrite A, app_nil_r. reflexivity.
   - split; [exact I|]. rewrite app_nil_r. destruct (read_etx t i); reflexivity.
   - split; [exact I|]. apply app_nil_r.
@@ -494,13 +494,13 @@ Proof.
   - cbn. apply app_nil_r.
   - inversion W as [|? ? Wo Wops]; subst.
     destruct (qstep_inv t o I Wo) as (I' & A).
-    cbn [pushed flat_map popped qrun_state fold_left]. fold (pushed ops).
-    fold (qrun_state (fst (qstep t o)) ops).
     specialize (IH (fst (qstep t o)) I' Wops).
-    rewrite app_assoc, A.
+    change (pushed (o :: ops)) with (pushed_by o ++ pushed ops).
+    change (qrun_state t (o :: ops)) with (qrun_state (fst (qstep t o)) ops).
+    rewrite app_assoc, A. cbn [popped].
     destruct (qstep t o) as [t' r] eqn:E. cbn [fst snd] in *.
-    destruct o; try (rewrite IH; reflexivity).
-    destruct r as [|[e|]|]; try (rewrite IH; reflexivity).
+    destruct o; rewrite ?E; cbn [snd]; try exact IH.
+    destruct r as [|[e|]|]; try exact IH.
     cbn [app]. rewrite IH. reflexivity.
 Qed.
 
